@@ -19,6 +19,13 @@ Here this is *proved* for the states the API can reach:
 * (c) `seqNew_selfloop`, `makeFeasible_selfloop`, `apiReach_facts`: the constructor installs it; the setters and
   the construction heuristic keep it (the heuristic never assigns the key `(0,0)`);
 * (d) `*_api`: the C07 / C08 theorems for `C08.seqObj src strict V L` with no self-loop hypothesis left.
+
+Scope (third audit): "API-built" means an object on which `set_depot` HAS BEEN CALLED — by the constructor when the
+source graph has a node (hypothesis `hne : src.nodes ≠ []` of `apiReach_facts`), or by the caller.  An object
+assembled through `add_node` / `add_arc` alone has no self-loop until `set_depot` is called; the package's own
+`test_sequence_based` pins exactly that ("3 arcs before `set_depot`, 4 after"), so calling `set_depot` is the class's
+protocol, not a defect.  `ApiReach` follows SUCCESSFUL heuristic runs; histories that continue after a raising
+heuristic are followed by the flag-level machine of `C14c` (`SeqObj.step`), which keeps the partial state.
 -/
 namespace Vrp.C07
 open Vrp
